@@ -500,18 +500,27 @@ class ArithmeticPulseTemplate(PulseTemplate):
 
         return _apply_operation_to_channel_dict(lhs, rhs, operator_both=operator_both, rhs_only=rhs_only)
 
+    def _scalar_at_time(self, time) -> Dict[ChannelID, ExpressionScalar]:
+        """The scalar operand per channel with a time dependent value (only allowed on atomic templates) evaluated at
+        the given time."""
+        scalar = self._scalar_as_dict()
+        for ch, value in scalar.items():
+            if 't' in value.variables:
+                scalar[ch] = value.evaluate_symbolic({'t': time})
+        return scalar
+
     @property
     def initial_values(self) -> Dict[ChannelID, ExpressionScalar]:
         return self._apply_operation_to_channel_dict(
             self._pulse_template.initial_values,
-            self._scalar_as_dict()
+            self._scalar_at_time(0)
         )
 
     @property
     def final_values(self) -> Dict[ChannelID, ExpressionScalar]:
         return self._apply_operation_to_channel_dict(
             self._pulse_template.final_values,
-            self._scalar_as_dict()
+            self._scalar_at_time(self.duration)
         )
 
     @property
